@@ -186,8 +186,14 @@ def history(case, ctx, rng, tmp):
             mon = monitors.DispatchMonitor()
             for nm, p_ in monitors.params_of(st).items():
                 mon.protect("param:" + nm, p_.data)
+            as_file = rng.random() < 0.3
             with mon:
-                ctx.lib("save", st.save, path, md, tags=dict(tags, metadata=type(md).__name__, again=op == "save_again"))
+                if as_file:  # "location: str or file"
+                    with open(path, "wb") as fh:
+                        ctx.lib("save(file object)", st.save, fh, md, tags=dict(tags, metadata=type(md).__name__, again=op == "save_again"))
+                    ctx.count("saves_to_file_objects")
+                else:
+                    ctx.lib("save", st.save, path, md, tags=dict(tags, metadata=type(md).__name__, again=op == "save_again"))
             ctx.count("saves")
             ctx.count("protected_write_ops_inspected", mon.write_ops + 1)
             for w in mon.writes:
@@ -221,7 +227,12 @@ def history(case, ctx, rng, tmp):
                 m = {"kind": m["kind"], "st": st, "custom": True, "last_md": None}
                 models[mi] = m
                 ctx.count("loads_into_fresh_model")
-            ctx.lib("load", st.load, os.path.join(tmp, fname), tags=tags)
+            if rng.random() < 0.3:
+                with open(os.path.join(tmp, fname), "rb") as fh:
+                    ctx.lib("load(file object)", st.load, fh, tags=tags)
+                ctx.count("loads_from_file_objects")
+            else:
+                ctx.lib("load", st.load, os.path.join(tmp, fname), tags=tags)
             ctx.count("loads")
             s = files[fname]
             now = snap(m)
